@@ -2,16 +2,29 @@
 every walk builds its own objects)."""
 import multiprocessing as mp
 import os
+import signal
 import warnings
 
+WALK_TIMEOUT_S = 300
 
-def _init():
+
+class WalkTimeout(BaseException):
+    """a single walk did not finish (BaseException: must not be swallowed by `except Exception` in the code under test)"""
+
+
+def _on_alarm(signum, frame):
+    raise WalkTimeout()
+
+
+def _init(pool_worker=False):
     warnings.simplefilter("ignore")
     os.environ.setdefault("MPLBACKEND", "Agg")
-    # the C++ minimiser writes diagnostics straight to fd 2
+    # the C++ minimiser writes diagnostics straight to fd 2; kafe2 prints warnings to fd 1 (results travel through the pool's pipes)
     try:
         devnull = os.open(os.devnull, os.O_WRONLY)
         os.dup2(devnull, 2)
+        if pool_worker:
+            os.dup2(devnull, 1)
     except OSError:
         pass
 
@@ -19,12 +32,24 @@ def _init():
 def _run_chunk(args):
     fn, chunk = args
     out = []
+    try:
+        signal.signal(signal.SIGALRM, _on_alarm)
+        can_alarm = True
+    except ValueError:          # not in the main thread
+        can_alarm = False
     for idx, w in chunk:
         try:
+            if can_alarm:
+                signal.alarm(WALK_TIMEOUT_S)
             issues = fn(w)
+        except WalkTimeout:
+            issues = [dict(kind="machinery", signature="replay of one walk did not finish within %d s" % WALK_TIMEOUT_S, detail=repr(w)[:1500], step=-1)]
         except Exception as exc:  # harness failure on this walk: machinery, reported as such
             import traceback
             issues = [dict(kind="machinery", signature="replay crashed: %r" % (exc,), detail=traceback.format_exc()[-1500:], step=-1)]
+        finally:
+            if can_alarm:
+                signal.alarm(0)
         if issues:
             out.append((idx, issues))
     return out
@@ -39,7 +64,7 @@ def replay_parallel(walks, fn, procs=16, chunk=200):
         res = [_run_chunk(c) for c in chunks]
     else:
         ctx = mp.get_context("fork")
-        with ctx.Pool(min(procs, len(chunks)), initializer=_init) as pool:
+        with ctx.Pool(min(procs, len(chunks)), initializer=_init, initargs=(True,)) as pool:
             res = pool.map(_run_chunk, chunks)
     out = []
     for r in res:
